@@ -896,7 +896,11 @@ def errors(source, model, wcshelper):
     theta = model[prefix + 'theta'].value
     err_theta = model[prefix + 'theta'].stderr
 
-    source.err_peak_flux = err_amp
+    # an ill-conditioned covariance matrix can give a non-finite error
+    if err_amp is not None and np.isfinite(err_amp):
+        source.err_peak_flux = err_amp
+    else:
+        source.err_peak_flux = ERR_MASK
     pix_errs = [err_xo, err_yo, err_sx, err_sy, err_theta]
 
     log.debug("Pix errs: {0}".format(pix_errs))
